@@ -57,14 +57,19 @@ PermitsClient(u)   == u \in {"client", "both", "none"}      \* RFC 5280: no EKU 
 (* (1) ORACLE -- the statement.                                                                                *)
 (*                                                                                                             *)
 (* "treated as account X only if the client proves possession of the private key of a currently valid,         *)
-(*  unrevoked certificate that X itself published on chain".  Weakest reading (DESIGN 5.1):                    *)
+(*  unrevoked certificate that X itself published on chain".  Reading (weak where the text leaves room):       *)
 (*   - X published it:   the registry slot is X's own (the chain only stores a certificate under its CN);       *)
 (*   - unrevoked:        slot state "valid";                                                                   *)
 (*   - same key:         the presented leaf carries that certificate's public key (any serial of X);           *)
 (*   - possession:       the client owns the private half (TLS CertificateVerify);                             *)
-(*   - currently valid:  inside the validity window and usable for client authentication, judged on the        *)
-(*                       on-chain certificate OR the presented one (they coincide for a genuine client; an      *)
-(*                       implementation comparing public keys only may look at either).                        *)
+(*   - currently valid:  the PUBLISHED certificate is inside its validity window and usable for client             *)
+(*                       authentication now.  The statement speaks of the certificate X published, not of the one    *)
+(*                       presented: the holder of the key of a published certificate that has expired / is not yet   *)
+(*                       valid / is not for client authentication must not become X by re-making a certificate       *)
+(*                       with the same subject, serial and key and a window and usage of its own choosing.           *)
+(*                       (Identity of the presented bytes with the published ones is NOT demanded: an                *)
+(*                       implementation that compares keys and checks the published certificate's window and         *)
+(*                       usage satisfies the statement; it shows up as drift.)                                       *)
 (***************************************************************************************************************)
 CertMatches(c, reg) ==
     /\ c.chainLen >= 1
@@ -73,8 +78,8 @@ CertMatches(c, reg) ==
           LET e == Lookup(reg, c.cn, s) IN
           /\ e.state = "valid"
           /\ e.key = c.key
-          /\ (e.window = "ok" \/ c.window = "ok")
-          /\ (PermitsClient(e.usage) \/ PermitsClient(c.usage))
+          /\ e.window = "ok"
+          /\ PermitsClient(e.usage)
 
 Authenticate(c, reg) == c.holds /\ CertMatches(c, reg)
 
